@@ -33,7 +33,9 @@ TRANSLATE = {'modules': [
      'functions': ['Material.attenuation_coefficient'], 'requires': ['Verif.C20.SemExt']},
 ]}
 GEN_FILES = ['GenTables.v']
-RUN_FILES = ['Tie.v', 'Properties.v', 'Corr.v', 'Pin.v']
+# order: the table obligations, the comparison functions (so that the correspondence can run even if a later
+# proof breaks), the regression pin, the attenuation proof, the property theorems
+RUN_FILES = ['Tie.v', 'Corr.v', 'Pin.v', 'TieAtt.v', 'Properties.v']
 COQ_TIMEOUT = 900
 TRUSTED = [
     'tools/csv2coq.py (CSV lines -> Coq string literals; fail-closed outside printable ASCII; its row split is '
@@ -466,6 +468,13 @@ def search(ctx, broken):
         ctx.violation(f['key'], f['what'], f['replay'])
         found.append(f)
     ctx.coverage['search'] = {'checked': res.get('checked'), 'failures': len(res['failures'])}
+    if not found:
+        # nothing fails on the implementation: report the broken obligations themselves (the driver does the same,
+        # but only when no other violation -- e.g. a known finding -- was recorded in this run)
+        ctx.violation('broken-obligation:' + broken[0],
+                      'proof obligations no longer check and the search found no failing input: ' + ', '.join(broken[:8]),
+                      {'broken': list(broken), 'details': [o for o in ctx.obligations if o[1] != 'discharged'][:10],
+                       'search_checked': res.get('checked')}, found_input=False)
     return found
 
 
